@@ -202,6 +202,16 @@ def check_case(run, case, tier='quick'):
                               observed={'head': out[:120].decode('utf-8', 'replace'), 'tail': out[-80:].decode('utf-8', 'replace')},
                               expected={'head': exp[:60].decode('utf-8', 'replace')}); return
             run.case(h(['cli', case['spec']['base'], case['flags'], n]))
+        # ---- standard error goes away after start-up (a logger that exits, `2>&1 | head`): standard output still carries the first N guesses
+        if total >= 20 and rng.random() < 0.25:
+            nlim = rng.choice([total, max(10, total // 2), max(10, total - 3)])
+            out, seen, rc, to = cli.run_cli_stderr_closed('pcfg_guesser.py', ['-r', name, '-s', sn + 'err', '-n', str(nlim)] + fl)
+            run.ev('cli_runs'); run.ev('runs_with_stderr_closed_after_start_up')
+            session.drop_session(sn + 'err')
+            exp = ('\n'.join(Ug[:nlim]) + '\n').encode('utf-8')
+            if not to and out != exp:
+                run.violation(f'--limit {nlim} with standard error closed after start-up: standard output holds {out.count(10)} lines, expected the first {min(nlim, total)} guesses', case,
+                              observed={'stderr_seen_tail': seen[-150:].decode('utf-8', 'replace')}); return
         # ---- a standard output that cannot represent every guess (a consumer on an ASCII / Latin-1 pipe).  Today such a guess is silently left out; whatever
         # the tool does with it, what it does write is guesses only, in the order of the stream, and every representable guess is there
         configs = []
